@@ -1961,3 +1961,26 @@ def np_concatenate(interp, st, args, kwargs, node):
 
 
 LIBFUNCS.update({"np.expand_dims": np_expand_dims, "np.concatenate": np_concatenate})
+
+
+def lib_event(name, result=None):
+    """a library call with an effect we only record (spec: n_calls / call_arg): e.g. seeding the global random sources"""
+
+    def fn(interp, st, args, kwargs, node):
+        _trust(f"{name} is recorded as an event; its effect on the random sources is not modelled beyond that")
+        if not interp.ctx.options.get("spec_mode"):
+            ev = list(st.env.get("__events__", []))
+            ev.append((name, None, tuple(args), dict(kwargs), None))
+            st.env["__events__"] = ev
+        if result == "int":
+            return z3.Int(V.fresh_name(name.replace(".", "_")))
+        return None
+
+    return fn
+
+
+LIBFUNCS.update({
+    "muutils.mlutils.set_reproducibility": lib_event("set_reproducibility"),
+    "torch.random.seed": lib_event("torch.random.seed", "int"),
+    "np.random.seed": lib_event("np.random.seed"),
+})
